@@ -820,6 +820,8 @@ class TermCanvas(Canvas):
         elif self.modes.constrain_scrolling:
             y += self.scrollregion_start
 
+        # an explicit cursor movement cancels a pending wrap
+        self.is_rotten_cursor = False
         self.set_term_cursor(x, y)
 
     def push_char(self, char: bytes | None, x: int, y: int) -> None:
